@@ -21,11 +21,13 @@ ENGINES = [
 
 META = {
     'C13': dict(
-        text="TBD",
+        text="Kernel-checked theorems (lean/XV/Props/C13.lean) about a model of Tx.SortUnconfirmedTx + TopSortDFS in which Go's map iteration order is an explicit argument, over the L1 chain model (admitTx/applyTx): (1) order_respects_deps: every order TopSortDFS returns, for ALL graphs and ALL iteration orders, lists each node exactly once and puts u before v for every edge (proved about the algorithm itself: component split, DFS with temporary/permanent marks, result filled from the back; no acyclicity hypothesis), acyclic_is_sorted / cyclic_is_refused: the cycle flag is exact and the recursion bound of the model suffices; (2) graph_has_dep_edges, graph_has_antidep_edges, graph_edges_complete, graph_edges_sound, graph_nodes: the graph consists exactly of the producer->consumer edges (token and key inputs) and the reader->overwriter edges; (3) swap_independent (two adjacent independent admissions commute: both admissible in the other order, same U/ZU/ZD lookups and total) and the headline replayable: a pool admitted one by one in some order is admissible one by one from the same start state, with the same final tables, in ANY order that respects the edges; admitted_order_respects_edges, admitted_pool_unique_writers, admitted_pool_is_sorted: the admission order is itself a topological order, so the graph of a consistent pool is acyclic, has one overwriter per version, and GetUnconfirmedTx always yields an order; pool_order_replayable: every order the pool can yield (any iteration orders) is replayable to the producer's tables; block_replayable: also with the award applied first by the replica and last by the producer; prefix_admissible (size limit); (4) prefix_counterexample: for the graph before repair eb76c54 (no reader->overwriter edges) the order (W,R) is possible and not admissible. Tie: the same op lines go through two real in-process nodes and the Lean driver: the graph of SortUnconfirmedTx (hook VerifPoolGraph), membership of orders, replay of forced orders on a replica copy (accept/reject/tables), the real TopSortDFS on random graphs (cycle flag, component sizes). Impl-side oracle: >=40 GetUnconfirmedTx samples per pool and the real packBlock output (VerifPackBlock) must respect every dependency and anti-dependency computed by the harness from what the transactions declare; every order the implementation's graph allows (all of them for small pools) and the packed block are formatted as producer blocks (award first, one coinbase, award = configured amount) and handed to a node that never saw the transactions: IsValidTx, VerifyBlock, ConfirmBlock, Walk must succeed and balances, U table, key values+versions and total must equal the producer's (after ConfirmBlock + PlayForMiner for the packed block; pending state + award + fees for forced orders).",
         design_ref='DESIGN.md §6 C13',
-        note="TBD",
+        note="Trusted: Lean kernel, the harness (id abstraction, canonicaliser, its own dependency relation), the hand model of SortUnconfirmedTx/TopSortDFS and of L1 admission (tied by correspondence on every run, not translated). Idealisation used as hypotheses: transaction ids are hashes - pairwise distinct, and no output / key version carrying a pending id exists before that transaction is applied (FreshU/FreshV). Not proved in Lean (harness oracle only): the fee layer of a block (payFee rows), signatures, contract re-execution, block hashing/merkle, the timer transaction with tasks (without tasks it is generated and omitted, which the harness exercises), award decay (float). The model's set of possible orders over-approximates Go's runtime (all permutations as iteration orders).",
         technique='Lean 4 proof over a hand model of the pool graph and TopSortDFS with explicit iteration order + commutation of independent admissions in the L1 chain model; differential correspondence and replica replay of enumerated orders on real nodes',
     ),
 }
 
-HOOK_COMMITS = []
+HOOK_COMMITS = ['a5971b9 verif hook: VerifPoolGraph exposes the pool\'s dependency graph (Tx.SortUnconfirmedTx) to the verification harness (build tag verif)',
+                '8c92a5d verif hook: export Miner.packBlock as VerifPackBlock (build tag verif)',
+                '9cb7709 verif hook: signal completion of the pending-transaction replay started by State.Walk (build tag verif)']
